@@ -4,6 +4,7 @@
 //   - in memory (one Broker shared by every client of a process), and
 //   - file backed (<dir>/<topic>.log, length-prefixed records, single writer process, readers poll), so that a
 //     supervisor process can play "upstream Milvus" while the CDC under test runs in a child that can be killed.
+//
 // The broker keeps a census of subscriptions (topic, subscription name, seek position) for monitors.
 package memq
 
@@ -18,6 +19,7 @@ import (
 	"path/filepath"
 	"strings"
 	"sync"
+	"sync/atomic"
 	"time"
 
 	mqcommon "github.com/milvus-io/milvus/pkg/mq/common"
@@ -58,17 +60,43 @@ func DecodeID(b []byte) uint64 {
 // ---------------- log back-ends ----------------
 
 type record struct {
+	ID      uint64            `json:"i"` // message id: unique over ALL topics of the broker, increasing within a topic
 	Payload []byte            `json:"p"`
 	Props   map[string]string `json:"h"`
 }
 
 type topicLog interface {
+	// append stores r (r.ID already assigned) and returns its 1-based index
 	append(r record) (uint64, error)
-	// get returns record n (1-based); ok=false when it does not exist yet
+	// get returns the record at 1-based index n; ok=false when it does not exist yet
 	get(n uint64) (record, bool)
 	length() uint64
 	// wait blocks until length() > n, ctx is done, or a poll interval elapsed
 	wait(ctx context.Context, n uint64)
+}
+
+// indexOf returns the 1-based index of the first record whose id is >= id (length+1 if none).
+func indexOf(l topicLog, id uint64) uint64 {
+	lo, hi := uint64(1), l.length()+1
+	for lo < hi {
+		mid := (lo + hi) / 2
+		r, ok := l.get(mid)
+		if ok && r.ID < id {
+			lo = mid + 1
+		} else {
+			hi = mid
+		}
+	}
+	return lo
+}
+
+func lastID(l topicLog) uint64 {
+	n := l.length()
+	if n == 0 {
+		return 0
+	}
+	r, _ := l.get(n)
+	return r.ID
 }
 
 type memLog struct {
@@ -241,10 +269,12 @@ type Subscription struct {
 }
 
 type Broker struct {
+	nextID atomic.Uint64
 	dir    string // "" = memory
 	mu     sync.Mutex
 	topics map[string]topicLog
 	subs   []*Subscription
+	gates  map[string]uint64
 	// OnSubscribe, if set, is called (outside the lock) for every Subscribe / Seek
 	OnSubscribe func(Subscription)
 }
@@ -274,10 +304,66 @@ func sanitize(s string) string { return strings.NewReplacer("/", "_", "\\", "_")
 // Len returns the number of messages in the topic.
 func (b *Broker) Len(topic string) uint64 { return b.topic(topic).length() }
 
+// SetGate limits what consumers of the topic are handed: only records with 1-based index <= n (0 removes the
+// limit). It models a consumer that reads this topic slowly. With a file broker the limit is stored next to the
+// topic so that consumers in other processes see it.
+func (b *Broker) SetGate(topic string, n uint64) {
+	b.mu.Lock()
+	if b.gates == nil {
+		b.gates = map[string]uint64{}
+	}
+	b.gates[topic] = n
+	dir := b.dir
+	b.mu.Unlock()
+	if dir != "" {
+		p := filepath.Join(dir, sanitize(topic)+".gate")
+		if n == 0 {
+			_ = os.Remove(p)
+		} else {
+			_ = os.WriteFile(p+".tmp", []byte(fmt.Sprint(n)), 0o644)
+			_ = os.Rename(p+".tmp", p)
+		}
+	}
+}
+
+func (b *Broker) gate(topic string) uint64 {
+	if b.dir != "" {
+		bs, err := os.ReadFile(filepath.Join(b.dir, sanitize(topic)+".gate"))
+		if err != nil {
+			return 0
+		}
+		var n uint64
+		fmt.Sscan(string(bs), &n)
+		return n
+	}
+	b.mu.Lock()
+	defer b.mu.Unlock()
+	return b.gates[topic]
+}
+
+// SeedIDs makes the id counter continue above every id already stored in the given topics (file broker re-opened
+// by a new producer process).
+func (b *Broker) SeedIDs(topics ...string) {
+	for _, t := range topics {
+		if id := lastID(b.topic(t)); id > b.nextID.Load() {
+			b.nextID.Store(id)
+		}
+	}
+}
+
 // Append writes a raw message (used by tests; normal producers go through msgstream).
 func (b *Broker) Append(topic string, payload []byte, props map[string]string) (uint64, error) {
-	return b.topic(topic).append(record{payload, props})
+	id := b.allocID()
+	_, err := b.topic(topic).append(record{id, payload, props})
+	return id, err
 }
+
+// allocID hands out message ids. A file broker is produced to by ONE process only (the supervisor), so a
+// process-local counter seeded from the files' content is enough.
+func (b *Broker) allocID() uint64 { return b.nextID.Add(1) }
+
+// LastID returns the id of the newest message of the topic (0 if empty).
+func (b *Broker) LastID(topic string) uint64 { return lastID(b.topic(topic)) }
 
 // Subscriptions returns a copy of the census.
 func (b *Broker) Subscriptions() []Subscription {
@@ -318,7 +404,7 @@ func (b *Broker) Factory() msgstream.Factory {
 type client struct{ b *Broker }
 
 func (c *client) CreateProducer(ctx context.Context, o mqcommon.ProducerOptions) (mqwrapper.Producer, error) {
-	return &producer{t: c.b.topic(o.Topic)}, nil
+	return &producer{b: c.b, t: c.b.topic(o.Topic)}, nil
 }
 
 func (c *client) Subscribe(ctx context.Context, o mqwrapper.ConsumerOptions) (mqwrapper.Consumer, error) {
@@ -359,31 +445,33 @@ func (c *client) BytesToMsgID(b []byte) (mqcommon.MessageID, error) {
 }
 func (c *client) Close() {}
 
-type producer struct{ t topicLog }
+type producer struct {
+	b *Broker
+	t topicLog
+}
 
 func (p *producer) Send(ctx context.Context, m *mqcommon.ProducerMessage) (mqcommon.MessageID, error) {
 	props := map[string]string{}
 	for k, v := range m.Properties {
 		props[k] = v
 	}
-	n, err := p.t.append(record{append([]byte{}, m.Payload...), props})
-	if err != nil {
+	id := p.b.allocID()
+	if _, err := p.t.append(record{id, append([]byte{}, m.Payload...), props}); err != nil {
 		return nil, err
 	}
-	return &ID{n}, nil
+	return &ID{id}, nil
 }
 func (p *producer) Close() {}
 
 type message struct {
 	topic string
 	r     record
-	id    uint64
 }
 
-func (m *message) Topic() string                { return m.topic }
+func (m *message) Topic() string                 { return m.topic }
 func (m *message) Properties() map[string]string { return m.r.Props }
-func (m *message) Payload() []byte              { return m.r.Payload }
-func (m *message) ID() mqcommon.MessageID       { return &ID{m.id} }
+func (m *message) Payload() []byte               { return m.r.Payload }
+func (m *message) ID() mqcommon.MessageID        { return &ID{m.r.ID} }
 
 type consumer struct {
 	b      *Broker
@@ -424,18 +512,28 @@ func (c *consumer) pump() {
 		c.mu.Lock()
 		n := c.next
 		c.mu.Unlock()
+		if g := c.b.gate(c.topic); g != 0 && n > g {
+			select {
+			case <-c.ctx.Done():
+				return
+			case <-time.After(3 * time.Millisecond):
+			}
+			continue
+		}
 		r, ok := c.t.get(n)
 		if !ok {
 			c.t.wait(c.ctx, n-1)
 			continue
 		}
 		select {
-		case c.ch <- &message{c.topic, r, n}:
+		case c.ch <- &message{c.topic, r}:
 			c.mu.Lock()
-			c.next = n + 1
+			if c.next == n { // not moved by a Seek meanwhile
+				c.next = n + 1
+			}
 			c.mu.Unlock()
 			c.b.mu.Lock()
-			c.sub.Consumed = n
+			c.sub.Consumed = r.ID
 			c.b.mu.Unlock()
 		case <-c.ctx.Done():
 			return
@@ -447,12 +545,9 @@ func (c *consumer) Seek(id mqcommon.MessageID, inclusive bool) error {
 	n := DecodeID(id.Serialize())
 	c.mu.Lock()
 	if inclusive {
-		c.next = n
+		c.next = indexOf(c.t, n)
 	} else {
-		c.next = n + 1
-	}
-	if c.next == 0 {
-		c.next = 1
+		c.next = indexOf(c.t, n+1)
 	}
 	c.mu.Unlock()
 	c.b.mu.Lock()
@@ -475,5 +570,5 @@ func (c *consumer) Close() {
 	c.b.mu.Unlock()
 }
 
-func (c *consumer) GetLatestMsgID() (mqcommon.MessageID, error) { return &ID{c.t.length()}, nil }
-func (c *consumer) CheckTopicValid(string) error                 { return nil }
+func (c *consumer) GetLatestMsgID() (mqcommon.MessageID, error) { return &ID{lastID(c.t)}, nil }
+func (c *consumer) CheckTopicValid(string) error                { return nil }
